@@ -27,11 +27,21 @@ Proof. intros H. unfold doubled. destruct (Z.ltb_spec c a); lia. Qed.
 Lemma doubled_above a c : a <= c -> doubled a c = c + a.
 Proof. intros H. unfold doubled. destruct (Z.ltb_spec c a); lia. Qed.
 
+(** The three [_spec] lemmas are the only ones that look inside the GENERATED definitions.  Their proofs do
+    not depend on how the Rust code arranges the computation (a `let`, `Some` inside or outside the `if`,
+    the order of the operands): unfold, case-split on every comparison, arithmetic. *)
+Ltac pol_cases :=
+  cbv zeta;
+  change (Z.shiftl 1 23) with 8388608 in *; change (2 ^ 23) with 8388608 in *;
+  repeat match goal with
+  | |- context [?a <? ?b] => destruct (Z.ltb_spec a b)
+  | |- context [?a <=? ?b] => destruct (Z.leb_spec a b)
+  end;
+  try reflexivity; try discriminate; try lia; try (f_equal; lia).
+
 (** ** StdPolicy *)
 Lemma std_grow_to_spec c : std_grow_to c = Some (if c <? 2 ^ 23 then 2 * c else c + 2 ^ 23).
-Proof.
-  unfold std_grow_to. rewrite shiftl_23. fold threshold. f_equal. destruct (c <? threshold); lia.
-Qed.
+Proof. unfold std_grow_to. pol_cases. Qed.
 
 Lemma std_grow_to_doubled c : std_grow_to c = Some (doubled threshold c).
 Proof. rewrite std_grow_to_spec. reflexivity. Qed.
@@ -52,7 +62,7 @@ Qed.
 (** ** DoubleUntil(a) *)
 Lemma double_until_grow_to_spec a c :
   double_until_grow_to a c = Some (if c <? a then 2 * c else c + a).
-Proof. unfold double_until_grow_to. f_equal. destruct (c <? a); lia. Qed.
+Proof. unfold double_until_grow_to. pol_cases. Qed.
 
 Lemma double_until_doubles_below a c : c < a -> double_until_grow_to a c = Some (2 * c).
 Proof. intros H. rewrite double_until_grow_to_spec. fold (doubled a c). rewrite doubled_below by exact H. reflexivity. Qed.
@@ -80,11 +90,7 @@ Qed.
 (** ** DoubleUntilLimited(a, limit) *)
 Lemma double_until_limited_spec a lim c :
   double_until_limited_grow_to a lim c = if doubled a c <=? lim then Some (doubled a c) else None.
-Proof.
-  unfold double_until_limited_grow_to, doubled.
-  replace (if c <? a then c * 2 else c + a) with (if c <? a then 2 * c else c + a) by (destruct (c <? a); lia).
-  reflexivity.
-Qed.
+Proof. unfold double_until_limited_grow_to, doubled. pol_cases. Qed.
 
 (** it refuses exactly when the doubled size exceeds the limit *)
 Lemma double_until_limited_refuses_iff a lim c :
@@ -123,15 +129,15 @@ Local Close Scope Z_scope.
 
 Lemma pol_std_is_generated h c : pol_std h c = option_map Z.to_nat (std_grow_to (Z.of_nat c)).
 Proof.
-  unfold pol_std, std_grow_to. cbn [option_map]. f_equal.
-  change (Z.shiftl 1 23) with 8388608%Z.
+  rewrite std_grow_to_spec. unfold pol_std. cbn [option_map]. f_equal.
+  change (2 ^ 23)%Z with 8388608%Z.
   destruct (N.ltb_spec (N.of_nat c) 8388608), (Z.ltb_spec (Z.of_nat c) 8388608); lia.
 Qed.
 
 Lemma pol_double_until_is_generated a h c :
   pol_double_until a h c = option_map Z.to_nat (double_until_grow_to (Z.of_nat a) (Z.of_nat c)).
 Proof.
-  unfold pol_double_until, double_until_grow_to. cbn [option_map]. f_equal.
+  rewrite double_until_grow_to_spec. unfold pol_double_until. cbn [option_map]. f_equal.
   destruct (Nat.ltb_spec c a), (Z.ltb_spec (Z.of_nat c) (Z.of_nat a)); lia.
 Qed.
 
@@ -139,8 +145,8 @@ Lemma pol_double_until_limited_is_generated a lim h c :
   pol_double_until_limited a lim h c =
   option_map Z.to_nat (double_until_limited_grow_to (Z.of_nat a) (Z.of_nat lim) (Z.of_nat c)).
 Proof.
-  unfold pol_double_until_limited, double_until_limited_grow_to. cbv zeta.
+  rewrite double_until_limited_spec. unfold pol_double_until_limited, doubled. cbv zeta.
   destruct (Nat.ltb_spec c a), (Z.ltb_spec (Z.of_nat c) (Z.of_nat a)); try lia.
-  - destruct (Nat.leb_spec (c * 2) lim), (Z.leb_spec (Z.of_nat c * 2) (Z.of_nat lim)); try lia; cbn [option_map]; f_equal; lia.
+  - destruct (Nat.leb_spec (c * 2) lim), (Z.leb_spec (2 * Z.of_nat c) (Z.of_nat lim)); try lia; cbn [option_map]; f_equal; lia.
   - destruct (Nat.leb_spec (c + a) lim), (Z.leb_spec (Z.of_nat c + Z.of_nat a) (Z.of_nat lim)); try lia; cbn [option_map]; f_equal; lia.
 Qed.
